@@ -69,7 +69,16 @@ def main(argv=None):
 
 
 if __name__ == "__main__":
-    rc = main()
+    try:
+        rc = main()
+    except SystemExit as e:
+        rc = e.code if isinstance(e.code, int) else 2
+    except BaseException:  # an exception of the harness itself must never look like a verdict (exit 1)
+        import traceback
+
+        traceback.print_exc()
+        print("HARNESS-ERROR: uncaught exception in the harness")
+        rc = 2
     # Leave without running the interpreter's teardown: CPython 3.12.1 can overflow the C stack while deallocating
     # the long chains of itertools.tee objects that Vyxal's deep_copy builds (also on the unchanged tree), which
     # would turn a correct exit status into a segfault.
